@@ -398,8 +398,23 @@ where
     };
 
     // Observe opened values before getting PCS challenges.
-    // For single-STARK with one instance, the standard observation order is correct.
-    opened_values_no_lookups.observe(circuit, &mut challenger);
+    // For `HidingFriPcs` the native verifier appends the FRI-level random opened values to each
+    // point's values before observing them; reuse the batch-STARK routine (one instance, no
+    // lookups), which does the same and otherwise observes in the single-STARK order.
+    let fri_random_rounds = SC::Pcs::get_fri_random_opened_values(&proof_targets.opening_proof);
+    let num_quotient_chunks = opened_values_no_lookups
+        .opened_values_no_lookups
+        .quotient_chunks_targets
+        .len();
+    super::batch_stark::observe_opened_values_circuit::<SC, CP, WIDTH, RATE>(
+        circuit,
+        &mut challenger,
+        core::slice::from_ref(&opened_values_no_lookups),
+        &[num_quotient_chunks],
+        fri_random_rounds,
+        preprocessed_width > 0,
+        false,
+    );
 
     // Get PCS-specific challenges (FRI betas, query indices, etc.)
     let pcs_challenges = SC::Pcs::get_challenges_circuit::<WIDTH, RATE, CP>(
